@@ -13,7 +13,7 @@ from __future__ import annotations
 import ast
 from typing import Dict, Iterable, List, Optional, Set, Tuple
 
-from .srcmodel import ClassDef, FuncDef, SrcModel, dotted, norm, walk_shallow
+from .srcmodel import ClassDef, FuncDef, SrcModel, assigned_expr, dotted, norm, walk_shallow
 
 MUTATORS = {"append", "extend", "insert", "add", "update", "setdefault", "pop", "popitem", "clear", "remove", "discard",
             "sort", "reverse", "__setitem__", "appendleft", "move_to_end"}
@@ -56,7 +56,7 @@ def module_level_mutables(model: SrcModel, mod) -> Dict[str, ast.expr]:
     out: Dict[str, ast.expr] = {}
     for name, sts in mod.assigns.items():
         for st in sts:
-            v = st.value
+            v = assigned_expr(st, name) or st.value
             if v is None or isinstance(v, ast.Constant):
                 continue
             out[name] = v
